@@ -146,7 +146,95 @@ def h_nesting(g_ref, which, depth, nsym):
     return fn
 
 
+# ------------------------------------------------------------------ stored message headers
+# The header text itself is parsed by the standard library's email package, which the engine does not encode.  Its
+# observable contract towards pymap is: a header object, a header object with degenerate attributes (Date without a
+# datetime), or an exception (malformed address lists make it raise IndexError / AttributeError / ValueError).  Each
+# entry below is a concrete representative of one of these classes; which header gets which value is drawn by the engine.
+HDR_NAMES = [b'Date', b'From', b'Sender', b'Reply-To', b'To', b'Cc', b'Bcc', b'Subject', b'Message-Id', b'In-Reply-To',
+             b'References', b'Content-Type', b'Content-Disposition', b'Content-Transfer-Encoding', b'Content-Language',
+             b'Content-Location', b'Content-Id', b'Content-Description', b'MIME-Version']
+HDR_VALUES = [b'', b'x', b'a@b', b'Mon, 6 Jan 2020 10:00:00 +0100', b'garbage 99', b'<<<>>>,,,"', b'"', b'<', b'"a" <',
+              b'a@[', b',', b'(', b'g:;', b'g: a@b, <c@d>;', b' ', b';;;=', b'multipart/mixed', b'message/rfc822',
+              b'text/plain; charset*=utf-8\'\'%ff', b'=?utf-8?q?=ff?=', b'\xff\xfe', b're: re: [x] fwd: y']
+FETCH_ALL = (b'(ENVELOPE BODYSTRUCTURE BODY RFC822.SIZE INTERNALDATE RFC822.HEADER BODY[1] BODY[1.MIME] '
+             b'BODY[HEADER.FIELDS (to)] BODY[TEXT] BINARY.SIZE[1] EMAILID THREADID)')
+SEARCH_ALL = b'SENTBEFORE 1-Jan-2020 SENTON 6-Jan-2020 FROM x TO y CC z BCC w HEADER sender a SUBJECT s BODY b TEXT t'
+
+
+def headers_scenario(g, sim, conn_mod, picks, body=b'x'):
+    msg = b''.join(HDR_NAMES[h] + b': ' + HDR_VALUES[v] + b'\r\n' for h, v in picks) + b'\r\n' + body
+    feed = [b'l LOGIN testuser testpass\r\n', b'a APPEND INBOX {%d+}\r\n' % len(msg) + msg + b'\r\n', b's SELECT INBOX\r\n',
+            b'f FETCH * ' + FETCH_ALL + b'\r\n', b'q SEARCH ' + SEARCH_ALL + b'\r\n', b'n NOOP\r\n']
+    out, leftover, exc = run_lines(g, sim, conn_mod, feed)
+    return verdict(out, leftover, exc, [b'a', b's', b'f', b'q', b'n'])
+
+
+def h_headers(g_ref, nheaders):
+    def fn(eng):
+        from pysymex import Outcome
+        from checks import _conn
+        g = g_ref
+        picks = []
+        last = -1
+        for i in range(nheaders):
+            h = eng.choose('h%d' % i, len(HDR_NAMES))
+            if h <= last and nheaders > 1:
+                return Outcome(True, witness=lambda m: {'picks': []}, site='symmetric')
+            last = h
+            picks.append((h, eng.choose('v%d' % i, len(HDR_VALUES))))
+        err = headers_scenario(g, g['_sim'], _conn, picks)
+        return Outcome(err is None, witness=lambda m: {'picks': picks}, info=err)
+    return fn
+
+
+# ------------------------------------------------------------------ deeply nested stored messages
+DEEP = ['subject re:', 'subject [tag]', 'multipart', 'message/rfc822']
+
+
+def deep_message(kind, depth, tail):
+    """message bytes (list of items) with `depth` nested constructs and `tail` (items) as innermost body"""
+    if kind == 0:
+        return list(b'Subject: ' + b're: ' * depth + b'x\r\n\r\n') + list(tail)
+    if kind == 1:
+        return list(b'Subject: ' + b'[a] ' * depth + b'x\r\n\r\n') + list(tail)
+    if kind == 2:
+        m = b''.join(b'Content-Type: multipart/mixed; boundary=b%d\r\n\r\n--b%d\r\n' % (i, i) for i in range(depth))
+        end = b''.join(b'--b%d--\r\n' % i for i in reversed(range(depth)))
+        return list(m + b'\r\n') + list(tail) + list(b'\r\n' + end)
+    return list(b'Content-Type: message/rfc822\r\n\r\n' * depth + b'\r\n') + list(tail)
+
+
+def deep_scenario(g, sim, conn_mod, kind, depth, tail, mk=bytes):
+    msg = deep_message(kind, depth, tail)
+    head = list(b'a APPEND INBOX {%d+}\r\n' % len(msg))
+    line = mk(head + msg + [13, 10])
+    feed = [b'l LOGIN testuser testpass\r\n', line, b's SELECT INBOX\r\n', b'f FETCH * ' + FETCH_ALL + b'\r\n',
+            b'q SEARCH ' + SEARCH_ALL + b'\r\n', b'n NOOP\r\n']
+    out, leftover, exc = run_lines(g, sim, conn_mod, feed)
+    return verdict(out, leftover, exc, [b'a', b's', b'f', b'q', b'n'])
+
+
+def h_deep(g_ref, kind, depth, nsym):
+    def fn(eng):
+        from pysymex import fresh_bytes, SymBytes, Outcome
+        from checks import _conn
+        body = fresh_bytes(eng, 't', nsym)
+        wit = lambda m: {'kind': kind, 'depth': depth, 'tail': bytes(body.eval(m)).hex()}  # noqa: E731
+        err = deep_scenario(g_ref, g_ref['_sim'], _conn, kind, depth, body.items, lambda items: SymBytes(items, 'bytes'))
+        return Outcome(err is None, witness=wit, info=err)
+    return fn
+
+
 def replay(harness, w):
+    if harness == 'deepmsg':
+        from checks import _sim, _conn
+        err = deep_scenario(bindings(), _sim, _conn, w['kind'], w['depth'], bytes.fromhex(w['tail']))
+        return {'violates': err is not None, 'detail': err, 'category': (err or '')[:70]}
+    if harness == 'msgheaders':
+        from checks import _sim, _conn
+        err = headers_scenario(bindings(), _sim, _conn, [tuple(x) for x in w['picks']])
+        return {'violates': err is not None, 'detail': err, 'category': (err or '')[:70]}
     from checks import _sim, _conn
     g = bindings()
     if harness == 'badlimit':
